@@ -203,6 +203,9 @@ func baseConfig(rng *simcore.RNG, env *simcore.Env) simcore.Op {
 	c["crash"] = (crashy && rng.Bool(0.9)) || (!crashy && rng.Bool(0.25))
 	c["crash_rate"] = []int{1, 2, 4}[rng.Intn(3)]
 	c["wal_garbage"] = rng.Bool(0.4)
+	// operators leave statesync.enable = true in the config of a node that has long had state:
+	// it must be ignored there (restarts only, see node.go)
+	c["stale_statesync"] = rng.Bool(0.3)
 	c["wal_head_limit"] = []int{0, 0, 2000, 20000}[rng.Intn(4)]
 	c["skew"] = rng.Bool(0.3)
 	c["gst"] = prop == "C03" || rng.Bool(0.3)
